@@ -60,6 +60,10 @@ var hashHeavy = []string{
 	"def hh%[1]d():\n    mx = {1: \"a\", \"1\": \"b\", (1, \"a-long-string-over-12-bytes\"): \"c\", 1.5: \"d\", True: \"e\", \"true-true-true-true\": \"f\", None: \"g\"}\n    mx.pop(1)\n    mx[1] = \"again\"\n    print(mx, json.encode({str(k): v for k, v in mx.items()}))\n    return mx\nhr%[1]d = hh%[1]d()\n",
 	"hr%[1]d = struct(zeta_field_name_long=1, a=2, mmmmmmmmmmmmmmm=3, b=[4])\nprint(hr%[1]d, dir(hr%[1]d), json.encode(hr%[1]d), dir(json), dir(math), dir(time), dir(\"\"), dir([]), dir({}), dir(b\"\"))\n",
 	"hr%[1]d = [time.now(), time.now() - time.now(), str(time.now().unix)]\nprint(hr%[1]d)\n",
+	// functions that mutate what the interpreter handed them (**kwargs, *args copies, default-less collections):
+	// each call must get fresh ones — otherwise a later call, a later execution or another thread sees the leftovers
+	"def hk%[1]d(*args, **kw):\n    kw.setdefault(\"tags\", []).append(len(kw))\n    kw[\"n-%[2]d\"] = len(args)\n    return kw\nhr%[1]d = [hk%[1]d(), hk%[1]d(1, 2), hk%[1]d(), str(hk%[1]d(a=1)), len(hk%[1]d())]\nprint(hr%[1]d)\n",
+	"def hv%[1]d(*args):\n    l = list(args)\n    l.append(len(l))\n    return (args, l)\ndef hw%[1]d(**kw):\n    kw.update(seen=len(kw))\n    return sorted(kw.items())\nhr%[1]d = [hv%[1]d(), hv%[1]d(), hw%[1]d(), hw%[1]d(), hw%[1]d(**{}), hv%[1]d(*[])]\nprint(hr%[1]d)\n",
 	// attribute listings of values of every library type (a listing built from a shared or cached slice shows up
 	// as a difference between the first and a later execution in the same process)
 	"hr%[1]d = [dir(time.now()), dir(time.now() - time.now()), dir(struct(b=1, a=2)), dir(json), dir(math), dir(time), dir(()), dir([]), dir({}), dir(range(3)), dir(len), dir(\"\".join), dir(lambda: 0), dir(1), dir(1.5), dir(None), dir(True)]\nprint(hr%[1]d)\nprint(dir(time.now()), dir(time.now() - time.now()))\n",
